@@ -606,6 +606,92 @@ def r9_root_alias_is_relative(ctx, rep):
         raise AnalysisError("RelativeLinksTreeProcessor: the containment test of the base URL was not found")
 
 
+def r10_navigation_reaches_every_depth(ctx, rep):
+    """The page tree is a tree of any depth (`subpages` of `subpages` ...).  The navigation lists every page only if whatever
+    renders the `subpages` of a node renders the `subpages` of each of these in turn: a `{% for ... recursive %}` loop that calls
+    `loop(<item>.subpages)`, or a macro that calls itself.  A fixed number of nested loops stops at that depth - deeper pages are
+    still written, but nothing in the navigation leads to them."""
+    from jinja2 import nodes as N
+    from ..jmodel import sym
+    py, j = ctx.py, ctx.j
+    tpls = sorted({py.eval_str(py.classes[c].class_attrs["template_path"]) for c in py.subclasses("BasePage")
+                   if c == "PagetreePage" and "template_path" in py.classes[c].class_attrs} - {None})
+    if not tpls:
+        raise AnalysisError("PagetreePage.template_path not found")
+    n = 0
+    for tpl in tpls:
+        t = j.templates[tpl]
+        macros = {m.name: m for m in t.find_all(N.Macro)}
+
+        def is_subpages(e) -> bool:
+            return isinstance(e, N.Getattr) and e.attr == "subpages"
+        loops = [f for f in t.find_all(N.For) if is_subpages(f.iter)]
+        # outermost loops only (a loop nested in another loop over subpages is part of that one's rendering)
+        inner = {id(g) for f in loops for g in f.find_all(N.For) if g is not f}
+        for f in loops:
+            if id(f) in inner:
+                continue
+            n += 1
+            tgt = f.target.name if isinstance(f.target, N.Name) else None
+            recurses = bool(f.recursive) and any(isinstance(c.node, N.Name) and c.node.name == "loop" and c.args and is_subpages(c.args[0])
+                                                 and isinstance(c.args[0].node, N.Name) and c.args[0].node.name == tgt
+                                                 for c in f.find_all(N.Call))
+            enclosing = [m for m in macros.values() if any(x is f for x in m.find_all(N.For))]
+            self_call = any(isinstance(c.node, N.Name) and c.node.name == m.name for m in enclosing for c in m.find_all(N.Call))
+            ok = recurses or self_call
+            rep.ob(f"template={tpl} loop over {sym(f.iter)} (line {f.lineno})", ok,
+                   "renders the sub-pages of every sub-page in turn (recursive loop)" if ok else
+                   f"the loop over `{sym(f.iter)}` renders a fixed number of levels: pages further down the tree appear in no "
+                   f"navigation, not even on their own page", f"ford/templates/{tpl}:{f.lineno}")
+    if n == 0:
+        raise AnalysisError("no loop over `subpages` in the static-page template")
+
+
+# priorities with which third-party Markdown extensions register their preprocessors (python-markdown runs preprocessors in
+# descending priority); read from the installed package when it is there, else the reviewed value
+THIRD_PARTY_PREPROCESSORS = {"markdown_include.include": ("include", 101)}
+
+
+def _third_party_priority(modname: str, default: int) -> int:
+    import importlib.util
+    try:
+        spec = importlib.util.find_spec(modname)
+        src = open(spec.origin, encoding="utf-8").read() if spec and spec.origin else ""
+        for c in ast.walk(ast.parse(src)):
+            if isinstance(c, ast.Call) and isinstance(c.func, ast.Attribute) and c.func.attr == "register" and len(c.args) == 3 \
+                    and "preprocessors" in ast.unparse(c.func.value) and isinstance(c.args[2], ast.Constant):
+                return int(c.args[2].value)
+    except Exception:
+        pass
+    return default
+
+
+def r11_aliases_in_included_text(ctx, rep):
+    """`|page|`, `|media|`, `|url|` are substituted by a Markdown preprocessor; text pulled in with `{!file!}` is inserted by
+    another preprocessor (markdown_include).  Preprocessors run in descending priority: the alias pass has to come *after* the
+    include pass, otherwise aliases in included snippets are written to the page as they stand."""
+    py = ctx.py
+    if not any(isinstance(c, ast.Constant) and c.value == "markdown_include.include" for c in ast.walk(py.modules["_markdown"])):
+        rep.ob("alias substitution runs after file inclusion", True, "markdown_include is not among the default extensions",
+               "ford/_markdown.py", nontrivial=False)
+        return
+    name, dflt = THIRD_PARTY_PREPROCESSORS["markdown_include.include"]
+    inc = _third_party_priority("markdown_include.include", dflt)
+    regs = [c for c in ast.walk(py.modules["_markdown"]) if isinstance(c, ast.Call) and isinstance(c.func, ast.Attribute)
+            and c.func.attr == "register" and "preprocessors" in ast.unparse(c.func.value) and len(c.args) == 3
+            and any(isinstance(x, ast.Call) and "Alias" in call_name(x) for x in ast.walk(c.args[0]))]
+    if not regs:
+        raise AnalysisError("_markdown: registration of the alias preprocessor not found")
+    for c in regs:
+        pr = py.eval_const(c.args[2], py.module_env("_markdown"))
+        ok = isinstance(pr, (int, float)) and pr < inc
+        rep.ob("alias substitution runs after file inclusion", ok,
+               f"alias preprocessor priority {pr} < include preprocessor priority {inc}" if ok else
+               f"the alias preprocessor is registered with priority {pr}, the include preprocessor with {inc}: aliases are replaced "
+               f"before `{{!file!}}` is expanded, so `|page|` / `|media|` / `|url|` inside an included file stay in the output as text",
+               py.nloc(c))
+
+
 RULES = [
     RuleSpec("C17.R6", r6_links_and_empty_pages, "link fragments survive; an empty page is harmless", floor=1),
     RuleSpec("C17.R1", r1_containment, "containment of a bad page", floor=2),
@@ -616,4 +702,6 @@ RULES = [
     RuleSpec("C17.R8", r8_one_page_per_file, "the page name keeps every dot of the file name but the last suffix", floor=1),
     RuleSpec("C17.R7", r7_memo, "no cached link element outlives the page it was made for", floor=1),
     RuleSpec("C17.R9", r9_root_alias_is_relative, "the alias of the output root itself is made relative", floor=1),
+    RuleSpec("C17.R10", r10_navigation_reaches_every_depth, "the page navigation is rendered to every depth of the page tree", floor=1),
+    RuleSpec("C17.R11", r11_aliases_in_included_text, "aliases are substituted after included files were inserted", floor=1),
 ]
